@@ -23,8 +23,10 @@ func refChecksum(b []byte) byte {
 	return -t // two's complement of the sum (its defining property is decided in C20)
 }
 
-func refLE16(b []byte) int    { return int(b[0]) | int(b[1])<<8 }
-func refLE32(b []byte) uint32 { return uint32(b[0]) | uint32(b[1])<<8 | uint32(b[2])<<16 | uint32(b[3])<<24 }
+func refLE16(b []byte) int { return int(b[0]) | int(b[1])<<8 }
+func refLE32(b []byte) uint32 {
+	return uint32(b[0]) | uint32(b[1])<<8 | uint32(b[2])<<16 | uint32(b[3])<<24
+}
 
 func refPutLE32(v uint32) []byte { return []byte{byte(v), byte(v >> 8), byte(v >> 16), byte(v >> 24)} }
 
@@ -78,15 +80,15 @@ func refKn(auth int, sik []byte, n byte) []byte {
 
 // refMsg is a parsed IPMI LAN message.
 type refMsg struct {
-	ok      bool
-	rsAddr  byte
-	netFn   byte
-	rsLUN   byte
-	rqAddr  byte
-	rqSeq   byte
-	rqLUN   byte
-	cmd     byte
-	data    []byte // everything between the command byte and the trailing checksum
+	ok     bool
+	rsAddr byte
+	netFn  byte
+	rsLUN  byte
+	rqAddr byte
+	rqSeq  byte
+	rqLUN  byte
+	cmd    byte
+	data   []byte // everything between the command byte and the trailing checksum
 }
 
 func refParseMsg(m []byte) refMsg {
